@@ -2,7 +2,8 @@
 PROP = "C15"
 LEVEL = "other"
 EXPLANATION = 'bounded stand-in: operation sequences on 1-3 sections replayed on a terminal emulator and compared with the stacked contents; plain fallback'
-TARGETS = []
+from . import io_contracts as ioc
+TARGETS = [ioc.SEC_ADD]
 LEMMAS = []
 try:
     from .C15_bounded import bounded, BOUNDED_RULE  # noqa: F401
